@@ -166,6 +166,32 @@ func main() {
 				runCase(g.NeighbourCase())
 			}
 		}
+		if has("sharedparser") {
+			var cs []*codec.Case
+			var bs []*codec.CaseObs
+			for i := 0; i < 12; i++ {
+				c := g.RandomCase(false, false)
+				o, err := codec.RunCase(c)
+				if err != nil {
+					fatal(err)
+				}
+				cs, bs = append(cs, c), append(bs, o)
+			}
+			for _, o := range codec.RunSharedParser(cs, bs, 3000) {
+				emit(o)
+			}
+		}
+		if has("sharedcmp") {
+			for i := 0; i < 1+*n/10; i++ {
+				c := g.RandomCase(false, false)
+				if len(c.M.Header) == 0 {
+					continue
+				}
+				for _, o := range codec.RunSharedComponent(c, 4, 400) {
+					emit(o)
+				}
+			}
+		}
 		if has("loose") {
 			for i := 0; i < *n; i++ {
 				c := g.LooseEntryCase()
